@@ -1,5 +1,62 @@
-(* C14 — everything the tool writes is well-formed PNA that an independent reader decodes *)
-From PNA Require Import Base Chunk Archive Entry Wf WfFacts.
+(* C14 — everything the tool writes is well-formed PNA that an independent reader decodes.
+   Model: coq/Model/Wf.v (strict recogniser wf_archive / wf_parts and strict decoder, written from
+   the format description) beside the tolerant reader model of Archive.v / Entry.v.
+   Proved here: on everything the strict decoder accepts, the library's tolerant parser returns the
+   same entries (entry level, and for the whole chunk sequence of a part chain).
+   Partial / outside:
+   * strict_agrees is proved at the level of the chunk sequence (`bodies`): relating the tolerant
+     byte-level iteration (Archive.next_item_loop with its fuel) to `bodies` is not done;
+   * writer_wf (forall entries: wf_archive (write_raw_archive 0 es)) is not proved in general: the
+     closed instances below cover ser_normal (plain, rich metadata, encrypted) and ser_solid, and the
+     check runs wf_archive on every archive the library and the CLI write;
+   * the compressor/cipher pipeline is not in this model: its output is decoded by the independent
+     reference reader (harness/src/refdec.rs) on every archive of the run. *)
+From PNA Require Import Base Codec Chunk Archive Entry Wf WfFacts.
+
+Theorem C14_strict_entry_agrees :
+  forall (h : chunk) (body : list chunk) (e : chunk) (x : read_entry),
+  (ty_is h FHED = true /\ ty_is e FEND = true) \/ (ty_is h SHED = true /\ ty_is e SEND = true) ->
+  any_entry h body e = SOk x ->
+  parse_entry (h :: body ++ [e]) = Ok x.
+Proof. exact strict_entry_agrees. Qed.
+Check C14_strict_entry_agrees :
+  forall (h : chunk) (body : list chunk) (e : chunk) (x : read_entry),
+  (ty_is h FHED = true /\ ty_is e FEND = true) \/ (ty_is h SHED = true /\ ty_is e SEND = true) ->
+  any_entry h body e = SOk x ->
+  parse_entry (h :: body ++ [e]) = Ok x.
+Print Assumptions C14_strict_entry_agrees.
+
+Theorem C14_strict_agrees_partial :
+  forall (parts : list bytes) (es : list read_entry),
+  strict_parts parts = SOk es ->
+  exists (cs : list chunk) (groups : list (list chunk)),
+    bodies 0 parts = SOk cs /\ cs = concat groups /\
+    Forall2 (fun g x => parse_entry g = Ok x) groups es.
+Proof. exact strict_agrees_chunks. Qed.
+Check C14_strict_agrees_partial :
+  forall (parts : list bytes) (es : list read_entry),
+  strict_parts parts = SOk es ->
+  exists (cs : list chunk) (groups : list (list chunk)),
+    bodies 0 parts = SOk cs /\ cs = concat groups /\
+    Forall2 (fun g x => parse_entry g = Ok x) groups es.
+Print Assumptions C14_strict_agrees_partial.
+
+Theorem C14_writer_wf_partial :
+  wf_archive (write_raw_archive 0 [ser_normal ex_plain; ser_normal ex_enc; ser_solid ex_solid]) = true /\
+  strict_decode (write_raw_archive 0 [ser_normal ex_plain; ser_normal ex_enc; ser_solid ex_solid])
+    = Ok [RNormal ex_plain; RNormal ex_enc; RSolid ex_solid] /\
+  entries read_chunk_stream (write_raw_archive 0 [ser_normal ex_plain; ser_normal ex_enc; ser_solid ex_solid])
+    = Ok ([RNormal ex_plain; RNormal ex_enc; RSolid ex_solid], FinOk) /\
+  wf_archive (write_raw_archive 0 [ser_normal (with_extra_chunks ex_enc [mk (lit "QQQQ") []])]) = false.
+Proof. exact writer_wf_examples. Qed.
+Check C14_writer_wf_partial :
+  wf_archive (write_raw_archive 0 [ser_normal ex_plain; ser_normal ex_enc; ser_solid ex_solid]) = true /\
+  strict_decode (write_raw_archive 0 [ser_normal ex_plain; ser_normal ex_enc; ser_solid ex_solid])
+    = Ok [RNormal ex_plain; RNormal ex_enc; RSolid ex_solid] /\
+  entries read_chunk_stream (write_raw_archive 0 [ser_normal ex_plain; ser_normal ex_enc; ser_solid ex_solid])
+    = Ok ([RNormal ex_plain; RNormal ex_enc; RSolid ex_solid], FinOk) /\
+  wf_archive (write_raw_archive 0 [ser_normal (with_extra_chunks ex_enc [mk (lit "QQQQ") []])]) = false.
+Print Assumptions C14_writer_wf_partial.
 
 Theorem C14_empty_archive_wf : wf_archive (write_raw_archive 0 []) = true.
 Proof. exact wf_empty_archive. Qed.
